@@ -306,7 +306,16 @@ class SimCtl:
         else:
             e = self._call(name, lambda: sim.run_up_to_including(c.t(b)), {"a": name, "b": b})
         if e["res"] == "ok" and pause_after is not None:
-            if self.reached.wait(3.0):
+            t0 = _time.time()
+            hit = False
+            while _time.time() - t0 < 4.0:
+                if self.reached.wait(0.0005):
+                    hit = True
+                    break
+                if not sim.is_starting_or_running() and self.wait_quiescent(0.0):
+                    hit = self.reached.is_set()
+                    break
+            if hit:
                 try:
                     sim.stop()
                 except DSOLError:
